@@ -272,20 +272,20 @@ Section Refinement.
       + apply Z.eqb_eq in E1. apply Hfin; assumption.
       + apply Z.eqb_neq in E1.
         replace 0%nat with (Z.to_nat (n (wrap s1))) by (rewrite Wn; reflexivity).
-        apply p2_lt_sim; auto; try congruence.
-        unfold cache_fine. rewrite Wc. apply Hc; reflexivity.
+        apply p2_lt_sim; auto; try congruence;
+          try (unfold cache_fine; rewrite Wc; apply Hc; reflexivity).
     - (* continue: first loop again *)
       match goal with |- context [if cached then ?X else ?Y] =>
         replace (if cached then X else Y) with Y by (rewrite Eca; reflexivity) end.
       assert (E : p1_run fuel (wrap s1) =
                   if rep (wrap s1) =? 0 then finish (wrap s1) else p1_run fuel (wrap s1)).
-      { destruct fuel; simpl; destruct (_ =? 0); reflexivity. }
+      { generalize (wrap s1). intros w. destruct fuel; simpl; destruct (rep w =? 0); reflexivity. }
       rewrite E. clear E.
       destruct (rep (wrap s1) =? 0) eqn:E1.
       + apply Z.eqb_eq in E1. apply Hfin; assumption.
       + apply Z.eqb_neq in E1.
         replace 0%nat with (Z.to_nat (n (wrap s1))) by (rewrite Wn; reflexivity).
-        apply p1_lt_sim; auto; try congruence. intros Hca. congruence.
+        apply p1_lt_sim; auto; try congruence.
   Qed.
 
   (** second loop, past the last frame *)
@@ -304,10 +304,9 @@ Section Refinement.
     - apply Z.eqb_eq in E1. rewrite E1. apply finish_sim; congruence.
     - apply Z.eqb_neq in E1.
       replace 0%nat with (Z.to_nat (n (wrap s))) by (rewrite Wn; reflexivity).
-      apply p2_lt_sim; auto.
+      apply p2_lt_sim; auto; try congruence.
       + unfold ready. rewrite Wn, Wz, Wio. repeat split; try assumption; lia.
       + unfold cache_fine. rewrite Wc. exact Hc.
-      + congruence.
   Qed.
 
   (* -------------------------------------------------------- one operation *)
